@@ -433,6 +433,10 @@ mp::internal::atomic<unsigned> SignalHandler::signal_message_size_;
 mp::internal::atomic<InterruptHandler> SignalHandler::handler_;
 mp::internal::atomic<void*> SignalHandler::data_;
 
+#ifdef MP_VERIF_HOOKS
+extern "C" { void (*mp_verif_sig_hook)(int point) = 0; }
+#endif
+
 volatile std::sig_atomic_t SignalHandler::stop_ = 1;
 
 #ifdef _WIN32
@@ -503,21 +507,33 @@ SignalHandler::SignalHandler(BasicSolver &s)
   solver_.set_interrupter(this);
   signal_message_ptr_ = message_.c_str();
   signal_message_size_ = static_cast<unsigned>(message_.size());
+  MP_VERIF_SIG_POINT(10);
   std::signal(SIGINT, HandleSigInt);
+  MP_VERIF_SIG_POINT(11);
   std::signal(SIGTERM, HandleSigInt);
+  MP_VERIF_SIG_POINT(12);
   stop_ = 0;
+  MP_VERIF_SIG_POINT(13);
 }
 
 SignalHandler::~SignalHandler() {
+  MP_VERIF_SIG_POINT(30);
   solver_.set_interrupter(0);
+  MP_VERIF_SIG_POINT(31);
   stop_ = 1;
+  MP_VERIF_SIG_POINT(32);
   handler_ = 0;
+  MP_VERIF_SIG_POINT(33);
   signal_message_size_ = 0;
+  MP_VERIF_SIG_POINT(34);
 }
 
 void SignalHandler::SetHandler(InterruptHandler handler, void *data) {
+  MP_VERIF_SIG_POINT(20);
   handler_ = handler;
+  MP_VERIF_SIG_POINT(21);
   data_ = data;
+  MP_VERIF_SIG_POINT(22);
 }
 
 void SignalHandler::HandleSigInt(int sig) {
